@@ -920,6 +920,10 @@ class TaskScenario(ScenarioData):
 
         # Clamp to what was left of the slot (shouldn't exceed, but safety check)
         seconds_into_slot = min(seconds_into_slot, slot_duration_seconds - used_before)
+        # Slot lengths such as 10 min are not representable in hours (1/6 h): a remainder below a
+        # microsecond is rounding noise, not free time another task could start in
+        if slot_duration_seconds - used_before - seconds_into_slot < 1e-6:
+            seconds_into_slot = slot_duration_seconds - used_before
 
         # Calculate the precise end time, rounded to nearest second
         # (Gold standard uses second-level precision)
